@@ -115,6 +115,33 @@ example (mw : S_ratelimitmw_Middleware) (ri : S_agd_RequestInfo) :
     (Wrap_handler mw () 53 () (none, none, none) (some ri) true (true, none) none true none).map (·.1) = some none := by
   simp [Wrap_handler]
 
+/-! ## Where the profile's access object comes from (third deepening)
+
+`backendpb.AccessSettings.toInternal` and `filecachepb.Access.toInternal`: the returned interface value
+is abstract (`true` = non-nil), the construction of a `DefaultProfile` is a traced call. -/
+
+/-- The backend converter never panics (nil message included). -/
+theorem backend_access_total (x : Option S_backendpb_AccessSettings) (o : Option S_access_DefaultProfile) :
+    accessSettings_toInternal x o ≠ none := by
+  cases x with
+  | none => simp [accessSettings_toInternal]
+  | some s => cases he : s.Enabled <;> simp [accessSettings_toInternal, he]
+
+/-- A `DefaultProfile` (the only thing that can reject a request) is built exactly when the message
+exists and its `enabled` switch is on; otherwise nothing is built (`EmptyProfile`). -/
+theorem backend_access_enabled_iff (x : Option S_backendpb_AccessSettings) (o : Option S_access_DefaultProfile) :
+    (accessSettings_toInternal x o).map (fun r => names r.2) =
+      some (if (x.map (·.Enabled)).getD false then ["NewDefaultProfile"] else []) := by
+  cases x with
+  | none => simp [accessSettings_toInternal, names]
+  | some s => cases he : s.Enabled <;> simp [accessSettings_toInternal, he, names]
+
+/-- The cache converter builds a `DefaultProfile` exactly when the cache holds an access message (the
+cache has no `enabled` switch: disabled settings were written as "no message"). -/
+theorem cache_access_present_iff (x : Option S_filecachepb_Access) (o : Option S_access_DefaultProfile) :
+    names (cacheAccess_toInternal x o).2 = (if x.isSome then ["NewDefaultProfile"] else []) := by
+  cases x <;> simp [cacheAccess_toInternal, names]
+
 end Agd.Tie.TrC10
 
 #print axioms Agd.Tie.TrC10.translation_complete
@@ -126,3 +153,6 @@ end Agd.Tie.TrC10
 #print axioms Agd.Tie.TrC10.blocked_reaches_nothing
 #print axioms Agd.Tie.TrC10.access_checked_first
 #print axioms Agd.Tie.TrC10.unblocked_is_processed
+#print axioms Agd.Tie.TrC10.backend_access_total
+#print axioms Agd.Tie.TrC10.backend_access_enabled_iff
+#print axioms Agd.Tie.TrC10.cache_access_present_iff
